@@ -14,7 +14,7 @@ VARIABLES pbox, stack, fbS, fbC, last, depth
 CMap == [c \in 0..70 |-> c + 10]
 Layers ==
        { [k |-> "tr", o |-> o] : o \in { <<1, 0>>, <<-1, 2>> } }
-  \cup { [k |-> "cl", a |-> a] : a \in { <<0, 0, 2, 2>>, <<1, -1, 3, 2>>, <<1, 1, 0, 2>>, <<5, 5, 2, 2>> } }
+  \cup { [k |-> "cl", a |-> a] : a \in { <<0, 0, 2, 2>>, <<1, -1, 3, 2>>, <<1, 1, 0, 2>>, <<1, 1, 2, 0>>, <<5, 5, 2, 2>> } }
   \cup { [k |-> "cr", a |-> a] : a \in { <<0, 0, 2, 2>>, <<1, -1, 3, 2>>, <<1, 1, 0, 2>>, <<5, 5, 2, 2>> } }
   \cup { [k |-> "cc", cmap |-> CMap] }
 Stacks == { <<>> } \cup { <<a>> : a \in Layers } \cup { <<a, b>> : a \in Layers, b \in Layers }
@@ -59,6 +59,14 @@ WD == WellDefined(pbox, stack)
 EffectMatchesLowering == WD => fbS = fbC
 ClipRespected == (WD /\ HasClip(stack) /\ last # <<>>) => Addressed(pbox, last) \subseteq Allowed(pbox, stack)
 BoxesDocumented == \A i \in 0..Len(stack) : SameSet(BoxOfT(pbox, SubSeq(stack, 1, i)), BoxOf(pbox, SubSeq(stack, 1, i)))
+\* the unsigned fields of the Cropped machine never go negative, for every clip area a clipped layer can have and
+\* every area of the alphabet (checked in the initial states only: it does not depend on the history);
+\* UnsignedOKPinned = the same for the constructor before the repair of D22 (negative control)
+ClipAreas == LET L == { l.a : l \in { l \in Layers : l.k = "cl" } } IN L \cup { Intersection(a, pb) : a \in L, pb \in PBoxes }
+CropStates(fixed) ==
+  { CroppedNewG(SizeOf(a), Shift(Intersection(c, a), <<-a[1], -a[2]>>), fixed) : a \in { a \in Areas : \E c \in ClipAreas : Intersection(c, a) # a }, c \in ClipAreas }
+UnsignedOK == depth = 0 => \A st \in CropStates(TRUE) : CroppedUnsignedOK(st)
+UnsignedOKPinned == depth = 0 => \A st \in CropStates(FALSE) : CroppedUnsignedOK(st)
 \* printed once: the operation alphabet for the recorder
 ASSUME Gen => PrintT("GEN " \o ToJson([k |-> "alphabet", ops |-> SetToSeq({ op \in Ops : ValidOp(op) })]))
 =============================================================================
